@@ -63,7 +63,9 @@ def main():
 
     def replay(_m):
         # user-visible oracle: non-terminating programs under playground-run must end with a limit error quickly
-        progs = ["while True { }", "fun f(n: Int): Int { f(n + 1) }\nf(0)", "let xs = [1]\nwhile True { xs = xs.append(1) }"]
+        progs = ["while True { }", "fun f(n: Int): Int { f(n + 1) }\nf(0)", "let xs = [1]\nwhile True { xs = xs.append(1) }",
+                 # a budget used up by an earlier evaluation in the same run (a test block), then another loop
+                 "test spin { while True { } }\nwhile True { }", "test a { while True { } }\ntest b { while True { } }\n1"]
         bad = []
         for p in progs:
             code, out, err = native.run_file(p, subcmd=("playground-run",), timeout=60)
